@@ -26,7 +26,7 @@ from ..cfg import explore, must_facts, holds, canon_fact
 from ..mutate import mutate, remove_stmts, replace_expr, replace_stmt, parse_stmt, parse_expr
 from ..model import AnalysisError
 from ..rules import tainted_names
-from ..x_valuewalk import single_assignment, own_nodes, const_collection, branch_flag, iter_order, alias_expand, xdotted, xunparse, walk
+from ..x_valuewalk import untupled, single_assignment, own_nodes, const_collection, branch_flag, iter_order, alias_expand, xdotted, xunparse, walk
 
 TECHNIQUE = "loop-shape + guard-dominance facts, path-sensitive anchoring typestate, must-escaped dataflow into the %-format, handler protection, argument-binding tables"
 EXPLANATION = (
@@ -387,34 +387,61 @@ def rule_codec(ck):
     from .c21 import _type_oracle
     m_ = ck.repo.module(R)
     loops_r = [n for n in rv.cfg.nodes if n.kind == "for" and n.id in rv.cfg.reachable()]
+
+    def expr_tag(e, tags, lv, tau):
+        """'raw' (the argument itself) / 'str' (str() of it) / None for the value of expression ``e``"""
+        if isinstance(e, ast.Name):
+            return dict(tags).get(e.id, "raw" if e.id == lv else None)
+        if q.is_call(e, "str") and len(e.args) == 1:
+            t_ = expr_tag(e.args[0], tags, lv, tau)
+            return "str" if t_ in ("raw", "str") else None
+        if isinstance(e, ast.IfExp):
+            class _N:  # adapt the oracle (it wants a cfg test node)
+                kind = "test"
+            n_ = _N()
+            n_.ast = e.test
+            d_ = _type_oracle(ck, m_, lv, tau)(n_)
+            if d_ is None:
+                return None
+            return expr_tag(e.body if d_ else e.orelse, tags, lv, tau)
+        return None
+
     for c in esc:
         a0 = c.args[0] if c.args else None
         inner = a0.args[0] if isinstance(a0, ast.Call) and a0.args else None
-        if not isinstance(inner, ast.Name) or len(loops_r) != 1 or not isinstance(loops_r[0].ast.target, ast.Name):
+        comp_host = [x for x in ast.walk(rv.node) if isinstance(x, (ast.GeneratorExp, ast.ListComp)) and any(c is y for y in ast.walk(x.elt))]
+        if inner is None:
+            raise AnalysisError("PathMatches.reverse: argument conversion not understood: %s" % q.unparse(c))
+        if comp_host:
+            if len(comp_host[0].generators) != 1 or not isinstance(comp_host[0].generators[0].target, ast.Name):
+                raise AnalysisError("PathMatches.reverse: comprehension over the arguments not understood")
+            lv = comp_host[0].generators[0].target.id
+            for tau in ("str", "bytes", "int"):
+                tag = expr_tag(inner, frozenset(), lv, tau)
+                if tag is None:
+                    raise AnalysisError("PathMatches.reverse: value encoded for a %s argument is not understood: %s" % (tau, q.unparse(inner)))
+                want = "str" if tau == "int" else "raw"
+                ck.ob(rid, rv, c, tag == want, "reverse(<%s argument>): %s" % (tau if tau != "int" else "non-string", "converted with str() before it is encoded" if tau == "int" else "encoded as it is (no str() of bytes/str)"), construct="reverse arg type=%s tag=%s" % (tau, tag))
+            continue
+        if len(loops_r) != 1 or not isinstance(loops_r[0].ast.target, ast.Name):
             raise AnalysisError("PathMatches.reverse: argument conversion not understood: %s" % q.unparse(c))
         lv = loops_r[0].ast.target.id
         cnodes = rv.cfg.nodes_for(c)
         for tau in ("str", "bytes", "int"):
-            def transfer(n, tags, lv=lv):
+            def transfer(n, tags, lv=lv, tau=tau):
                 if n.kind == "for" and n.ast is loops_r[0].ast:
                     return frozenset({(lv, "raw")})
                 if n.kind == "stmt" and isinstance(n.ast, (ast.Assign, ast.AnnAssign)) and n.ast.value is not None:
                     tg = n.ast.targets if isinstance(n.ast, ast.Assign) else [n.ast.target]
                     if len(tg) == 1 and isinstance(tg[0], ast.Name):
                         d = dict(tags)
-                        v = n.ast.value
-                        if q.is_call(v, "str") and len(v.args) == 1 and isinstance(v.args[0], ast.Name) and d.get(v.args[0].id) in ("raw", "str"):
-                            d[tg[0].id] = "str"
-                        elif isinstance(v, ast.Name) and v.id in d:
-                            d[tg[0].id] = d[v.id]
-                        else:
-                            d[tg[0].id] = "?"
+                        d[tg[0].id] = expr_tag(n.ast.value, tags, lv, tau) or "?"
                         return frozenset(d.items())
                 return tags
             r_ = walk(rv.cfg, [(rv.cfg.entry.id, frozenset())], transfer, decide=_type_oracle(ck, m_, lv, tau))
             for cn in cnodes:
                 for tags in r_.get(cn.id, ()):
-                    tag = dict(tags).get(inner.id)
+                    tag = expr_tag(inner, tags, lv, tau)
                     if tag == "?" or tag is None:
                         raise AnalysisError("PathMatches.reverse: value encoded for a %s argument is not understood" % tau)
                     want = "str" if tau == "int" else "raw"
@@ -432,8 +459,8 @@ def rule_codec(ck):
             ok = bool(mods) and all(q.is_call(r.value.right, "tuple") and q.dotted(r.value.right.args[0]) == lst for r in mods)
     elif not loops:
         mods = [r for r in own_nodes(rv.node) if isinstance(r, ast.Return) and isinstance(r.value, ast.BinOp) and isinstance(r.value.op, ast.Mod)]
-        gen = [x for r in mods for x in ast.walk(r.value.right) if isinstance(x, (ast.GeneratorExp, ast.ListComp))]
-        ok = bool(gen) and all(x.elt in esc and q.dotted(x.generators[0].iter) == args_p and not x.generators[0].ifs for x in gen)
+        gen = [x for r in mods for x in ast.walk(alias_expand(rv.node, r.value.right)) if isinstance(x, (ast.GeneratorExp, ast.ListComp))]
+        ok = bool(gen) and all(q.is_call(x.elt, "url_escape") and q.dotted(x.generators[0].iter) == args_p and not x.generators[0].ifs and len(x.generators) == 1 for x in gen)
     ck.ob(rid, rv, loops[0] if loops else rv.node, ok, "every reverse() argument is escaped and substituted, in order")
 
 
@@ -466,7 +493,7 @@ def _unescaped(e, tainted, escset):
 
 def rule_format(ck):
     rid = "C31.format-hygiene"
-    fg = ck.func(R, "PathMatches._find_groups")
+    fg = untupled(ck.func(R, "PathMatches._find_groups"))
     init = ck.func(R, "PathMatches.__init__")
     # which attribute holds the format
     fmt_attr = None
@@ -557,7 +584,7 @@ def rule_format(ck):
 
 def rule_unescape(ck):
     rid = "C31.unescape"
-    fg = ck.func(R, "PathMatches._find_groups")
+    fg = untupled(ck.func(R, "PathMatches._find_groups"))
     calls = [c for c in q.calls(fg.node) if q.is_call(c, "re_unescape")]
     ck.floor(rid, len(calls), 1, "re_unescape calls in _find_groups")
     pm = q.parent_map(fg.node)
@@ -857,6 +884,9 @@ def rule_reverse_lookup(ck):
 
 
 def run(ck):
+    from ..x_valuewalk import guard_obligations
+
+    guard_obligations(ck, ['_find_groups', '_unquote_or_none', '_re_unescape_replacement', '_load_ui_modules', '_load_ui_methods', '_execute', '_has_stream_request_body', '_parse_body'])
     ck.rule("C31.first-match", "RuleRouter.find_handler tries self.rules in insertion order and returns inside the loop at the first non-None delegate of a matching rule, else None; add_rules appends in order; Application keeps the catch-all rule last")
     ck.rule("C31.anchored", "string patterns are compiled with a trailing '$' and applied with match()/fullmatch() to request.path / request.host_name; a regex miss yields None")
     ck.rule("C31.codec", "captured groups all pass through the None-safe url_unescape(encoding=None, plus=False); reverse() url_escape(utf8(arg), plus=False) for every argument")
